@@ -27,7 +27,10 @@ def _keys(tier):
     L = 3 if tier == "quick" else 4
     syms = SYMS if tier != "quick" else SYMS
     seen = set()
-    for k in itertools.chain(A.key_strings(syms, L if tier != "quick" else 2), A.word_forms(A.KEY_WORDS, syms), A.KEYWORD_CASES):
+    # the two symbols outside the BMP take part in all keys of length <= 2 and in the word forms (both tiers); the thorough tier's
+    # length-3/4 strings stay over the first 16 symbols (18^4 would add 60% to its run time for no new class of key)
+    base = A.key_strings(syms, 2) if tier == "quick" else itertools.chain(A.key_strings(syms[:16], L), A.key_strings(syms, 2))
+    for k in itertools.chain(base, A.word_forms(A.KEY_WORDS, syms), A.KEYWORD_CASES):
         if k not in seen:
             seen.add(k)
             yield k
